@@ -74,17 +74,34 @@ Section Step.
     option_eqb N.eqb (ds_hash a) (ds_hash b) && list_eqb phase_eqb (os_phases (ds_set a)) (os_phases (ds_set b)) &&
     list_eqb N.eqb (os_prev (ds_set a)) (os_prev (ds_set b)) && (ds_ctrl a =? ds_ctrl b) && Z.eqb (srev a) (srev b) &&
     Bool.eqb (is_archived a) (is_archived b).
+  (** the holder of the wanted name may not be reused: archived, a different spec, or an older revision (rollback) *)
+  Definition max_rev (l : list dset) : Z := fold_left (fun m x => Z.max m (srev x)) l 0%Z.
+  Definition not_reusable (c : dset) : bool :=
+    is_archived c || negb (list_eqb phase_eqb (os_phases (ds_set c)) (d_phases (st_dep pre))) ||
+    (negb (Z.eqb (srev c) 0) && (srev c <? max_rev (my_sets pre))%Z).
+  Definition clean_pass : bool :=
+    match s with SDep false None => match so_res o with OrDone => true | _ => false end | _ => false end.
   Definition m07_noreuse : bool :=
     forallb (fun n =>
       match find_dset (st_sets pre) n with
       | Some c =>
-          negb (is_archived c || negb (list_eqb phase_eqb (os_phases (ds_set c)) (d_phases (st_dep pre)))) ||
+          negb (not_reusable c) ||
           (match find_dset (so_sets o) n with Some c' => same_identity c c' | None => false end &&
            forallb (fun e => match e with
                              | DStatus _ cc _ _ _ _ => option_eqb N.eqb cc (bump_cc (d_cc (st_dep pre)))
-                             | _ => true end) (so_events o))
+                             | _ => true end) (so_events o) &&
+           (* ... and the bumped counter is STORED by the same pass (C07_no_reuse), not only computed *)
+           (negb clean_pass || option_eqb N.eqb (d_cc (so_dep o)) (bump_cc (d_cc (st_dep pre)))))
       | None => false
       end) clashes.
+  (** the clash of this pass, if its holder may not be reused: (name, stored collision count before the pass) *)
+  Definition hard_clash : option (N * option N) :=
+    if clean_pass then
+      match filter (fun n => match find_dset (st_sets pre) n with Some c => not_reusable c | None => false end) clashes with
+      | n :: _ => Some (n, d_cc (st_dep pre))
+      | [] => None
+      end
+    else None.
 
   (** "Whenever an unpaused ObjectDeployment's template is not matched by its newest ObjectSet, exactly one new ObjectSet is
       created" (existence; this is also "rolling back to an earlier template yields a new revision"): a complete, fault-free
@@ -140,11 +157,31 @@ Fixpoint one_per_change (budget : bool) (pre : ostate) (steps : list step) (obs 
   end.
 Definition m07_one (c : dcase) : bool := one_per_change (negb (matched0 c)) (init_state c) (dc_steps c) (dc_obs c).
 
+(** Bounded progress after a clash (C07_no_reuse + C07_create_justified on the next pass): the next complete pass does not
+    meet the same clash with the same stored collision count again: it asks for the name of the bumped counter. *)
+Fixpoint clash_progress (last : option (N * option N)) (pre : ostate) (steps : list step) (obs : list sobs) : bool :=
+  match steps, obs with
+  | s :: steps', o :: obs' =>
+      match s with
+      | SDep _ _ =>
+          let cur := hard_clash pre s o in
+          match last, cur with
+          | Some (n, cc), Some (n', cc') => negb ((n =? n') && option_eqb N.eqb cc cc')
+          | _, _ => true
+          end && clash_progress (if clean_pass s o then cur else None) (obs_state o) steps' obs'
+      | SEdit _ _ => clash_progress None (obs_state o) steps' obs'
+      | _ => clash_progress last (obs_state o) steps' obs'
+      end
+  | _, _ => true
+  end.
+Definition m07_clash_progress (c : dcase) : bool := clash_progress None (init_state c) (dc_steps c) (dc_obs c).
+
 (** agree; spec = template & not while paused/empty; previous complete & no unreported sibling; exactly one;
-    revisions unique; increasing; stable; no reuse on a clash; unmatched template => Create *)
+    revisions unique; increasing; stable; no reuse on a clash (counter stored); unmatched template => Create;
+    no repeated clash *)
 Definition judge07 (c : dcase) : list bool :=
   let m := monitors07 c in
-  [agree c; column 0 m; column 1 m; m07_one c; column 2 m; column 3 m; column 4 m; column 5 m; column 6 m].
+  [agree c; column 0 m; column 1 m; m07_one c; column 2 m; column 3 m; column 4 m; column 5 m; column 6 m; m07_clash_progress c].
 
 (** * Soundness of the per-pass creation monitors on the model (any hash function, any fault, any variant; fresh List). *)
 From PKO Require Import BaseProofs DeploymentProofs.
